@@ -29,3 +29,20 @@ theorem fact_uninstall_shape :
 theorem fact_join_indexes : Gen.eventSysJoin = ["Subscribe", "Lock", "index-assign", "Unlock"] := by decide +kernel
 
 end Evermint.Facts.EventSys
+
+namespace Evermint.Facts.EventSys
+open Evermint.Facts
+
+/-- the guards of `FilterLogs`, in order — `LogFilter.selects`: block bounds (missing / negative = none), address
+list, **the length guard on all positions** (`len(topics) > len(log.Topics)`, wildcards included), then the
+positional comparison `log.Topics[i] == topic` -/
+theorem fact_filterlogs_guards :
+    Gen.filterLogsGuards =
+      ["fromBlock!=nil&&fromBlock.Int64()>=0&&fromBlock.Uint64()>log.BlockNumber",
+       "toBlock!=nil&&toBlock.Int64()>=0&&toBlock.Uint64()<log.BlockNumber",
+       "len(addresses)>0&&!includes(addresses,log.Address)",
+       "len(topics)>len(log.Topics)",
+       "log.Topics[i]==topic",
+       "!match"] := by decide +kernel
+
+end Evermint.Facts.EventSys
